@@ -1,5 +1,968 @@
 (* Proofs/FmtParse.v *)
 From BVA Require Import Base.Prelude Base.Result Base.Words Base.Limbs.
 From BVA Require Import Model.Core Model.Ops Model.Arith Model.Conv Model.Auto Model.Run Spec.Spec Spec.Prop.
-From BVA Require Import Proofs.Common Proofs.Rechunk Proofs.Lift.
+From BVA Require Import Proofs.Common Proofs.Rechunk Proofs.Lift Proofs.Edit.
 From Coq Require Import ZifyBool ZifyN ZifyNat.
+
+(* ------------------------------------------------------------------ digits of a number in base 2^sh *)
+
+(* digit number p (p = 0 is the least significant one) *)
+Definition dig (sh V p : N) : N := (V / 2 ^ (sh * p)) mod 2 ^ sh.
+
+(* the k low digits, most significant first *)
+Fixpoint full (sh V : N) (k : nat) : list N :=
+  match k with O => [] | S k' => dig sh V (N.of_nat k') :: full sh V k' end.
+
+(* drop leading zeros *)
+Fixpoint strip (l : list N) : list N :=
+  match l with [] => [] | d :: r => if d =? 0 then strip r else l end.
+
+Definition nz0 (l : list N) : list N := match l with [] => [0] | _ => l end.
+
+Lemma dig_lt sh V p : dig sh V p < 2 ^ sh.
+Proof. unfold dig. apply N.mod_lt, pow2_ne0. Qed.
+
+Lemma dig_0 sh V : dig sh V 0 = V mod 2 ^ sh.
+Proof. unfold dig. rewrite N.mul_0_r. change (2 ^ 0) with 1. rewrite N.div_1_r. reflexivity. Qed.
+
+Lemma dig_shift sh V p : dig sh V (p + 1) = dig sh (V / 2 ^ sh) p.
+Proof.
+  unfold dig. rewrite N.div_div by apply pow2_ne0. rewrite <- pow2_add.
+  replace (sh * (p + 1)) with (sh + sh * p) by lia. reflexivity.
+Qed.
+
+Lemma dig_testbit sh V p b : N.testbit (dig sh V p) b = (b <? sh) && N.testbit V (b + sh * p).
+Proof. unfold dig. rewrite mod_pow2_testbit, div_pow2_testbit. reflexivity. Qed.
+
+Lemma dig_top sh V k : V < 2 ^ (sh * (k + 1)) -> dig sh V k = V / 2 ^ (sh * k).
+Proof.
+  intros H. unfold dig. apply N.mod_small. apply N.div_lt_upper_bound; [apply pow2_ne0|].
+  rewrite <- pow2_add. replace (sh * k + sh) with (sh * (k + 1)) by lia. assumption.
+Qed.
+
+Lemma full_length sh V k : length (full sh V k) = k.
+Proof. induction k; cbn [full length]; auto. Qed.
+
+Lemma full_snoc sh V k : full sh V (S k) = full sh (V / 2 ^ sh) k ++ [V mod 2 ^ sh].
+Proof.
+  induction k as [|k IH].
+  - cbn [full app]. change (N.of_nat 0) with 0. rewrite dig_0. reflexivity.
+  - change (full sh V (S (S k))) with (dig sh V (N.of_nat (S k)) :: full sh V (S k)).
+    rewrite IH. cbn [full app]. f_equal.
+    replace (N.of_nat (S k)) with (N.of_nat k + 1) by lia. apply dig_shift.
+Qed.
+
+Lemma full_range sh V k : Forall (fun d => d < 2 ^ sh) (full sh V k).
+Proof. induction k; cbn [full]; constructor; auto using dig_lt. Qed.
+
+Lemma strip_range (P : N -> Prop) l : Forall P l -> Forall P (strip l).
+Proof.
+  induction 1 as [|d r Hd Hr IH]; cbn [strip]; [constructor|].
+  destruct (d =? 0); [assumption|constructor; assumption].
+Qed.
+
+Lemma strip_hd l : strip l <> [] -> hd 0 (strip l) <> 0.
+Proof.
+  induction l as [|d r IH]; cbn [strip]; [congruence|].
+  destruct (N.eqb_spec d 0); [assumption|]. intros _. cbn [hd]. assumption.
+Qed.
+
+(* ------------------------------------------------------------------ val_of_digits *)
+
+Lemma vod_gen B ds a : fold_left (fun acc d => acc * B + d) ds a = a * B ^ lenw ds + val_of_digits B ds.
+Proof.
+  unfold val_of_digits. revert a. induction ds as [|d r IH]; intros a.
+  - cbn [fold_left]. rewrite lenw_nil. change (B ^ 0) with 1. lia.
+  - cbn [fold_left]. rewrite IH, (IH (0 * B + d)), lenw_cons.
+    rewrite N.pow_add_r, N.pow_1_r, N.mul_0_l, N.add_0_l. ring.
+Qed.
+
+Lemma vod_nil B : val_of_digits B [] = 0.
+Proof. reflexivity. Qed.
+
+Lemma vod_cons B d r : val_of_digits B (d :: r) = d * B ^ lenw r + val_of_digits B r.
+Proof. unfold val_of_digits at 1. cbn [fold_left]. rewrite vod_gen, N.mul_0_l, N.add_0_l. reflexivity. Qed.
+
+Lemma vod_snoc B l d : val_of_digits B (l ++ [d]) = val_of_digits B l * B + d.
+Proof. unfold val_of_digits. rewrite fold_left_app. reflexivity. Qed.
+
+Lemma vod_lt B ds : Forall (fun d => d < B) ds -> val_of_digits B ds < B ^ lenw ds.
+Proof.
+  induction 1 as [|d r Hd Hr IH].
+  - rewrite vod_nil, lenw_nil, N.pow_0_r. lia.
+  - rewrite vod_cons, lenw_cons, N.pow_add_r, N.pow_1_r.
+    assert ((d + 1) * B ^ lenw r <= B * B ^ lenw r) by (apply N.mul_le_mono_r; lia). lia.
+Qed.
+
+Lemma vod_strip B l : val_of_digits B (strip l) = val_of_digits B l.
+Proof.
+  induction l as [|d r IH]; [reflexivity|]. cbn [strip].
+  destruct (N.eqb_spec d 0) as [->|]; [|reflexivity]. rewrite IH, vod_cons. lia.
+Qed.
+
+Lemma pow_pow2 sh k : (2 ^ sh) ^ k = 2 ^ (sh * k).
+Proof. symmetry. apply N.pow_mul_r. Qed.
+
+Lemma mod_pow2_succ V sh k :
+  V mod 2 ^ (sh + k) = V mod 2 ^ sh + 2 ^ sh * ((V / 2 ^ sh) mod 2 ^ k).
+Proof. rewrite pow2_add. apply N.mod_mul_r; apply pow2_ne0. Qed.
+
+Lemma vod_full sh V k : val_of_digits (2 ^ sh) (full sh V k) = V mod 2 ^ (sh * N.of_nat k).
+Proof.
+  revert V. induction k as [|k IH]; intros V.
+  - cbn [full]. rewrite vod_nil. change (N.of_nat 0) with 0. rewrite N.mul_0_r. change (2 ^ 0) with 1.
+    rewrite N.mod_1_r. reflexivity.
+  - rewrite full_snoc, vod_snoc, IH.
+    replace (sh * N.of_nat (S k)) with (sh + sh * N.of_nat k) by lia.
+    rewrite mod_pow2_succ. lia.
+Qed.
+
+(* ------------------------------------------------------------------ digits_pow2 *)
+
+Lemma fuel_full sh : 0 < sh -> forall (k f : nat) x acc,
+  2 ^ (sh * N.of_nat k) <= x -> x < 2 ^ (sh * N.of_nat (S k)) -> (k < f)%nat ->
+  digits_pow2_fuel f sh x acc = full sh x (S k) ++ acc.
+Proof.
+  intros Hsh. induction k as [|k IH]; intros f x acc Hlo Hhi Hf.
+  - destruct f as [|f]; [lia|]. cbn [digits_pow2_fuel].
+    change (N.of_nat 0) with 0 in Hlo. rewrite N.mul_0_r in Hlo. change (2 ^ 0) with 1 in Hlo.
+    destruct (N.eqb_spec x 0) as [->|Hx]; [lia|].
+    replace (sh * N.of_nat 1) with sh in Hhi by lia.
+    rewrite N.shiftr_div_pow2, N.div_small by assumption.
+    destruct f; cbn [digits_pow2_fuel]; rewrite ?N.eqb_refl;
+      cbn [full app]; change (N.of_nat 0) with 0; rewrite dig_0, trunc_mod; reflexivity.
+  - destruct f as [|f]; [lia|]. cbn [digits_pow2_fuel].
+    pose proof (pow2_pos (sh * N.of_nat (S k))).
+    destruct (N.eqb_spec x 0) as [->|Hx]; [lia|].
+    rewrite N.shiftr_div_pow2, trunc_mod.
+    rewrite (IH f (x / 2 ^ sh)).
+    + rewrite (full_snoc sh x (S k)). rewrite <- app_assoc. reflexivity.
+    + apply N.div_le_lower_bound; [apply pow2_ne0|]. rewrite <- pow2_add.
+      replace (sh + sh * N.of_nat k) with (sh * N.of_nat (S k)) by lia. assumption.
+    + apply N.div_lt_upper_bound; [apply pow2_ne0|]. rewrite <- pow2_add.
+      replace (sh + sh * N.of_nat (S k)) with (sh * N.of_nat (S (S k))) by lia. assumption.
+    + lia.
+Qed.
+
+Lemma strip_full_digits sh V n : 0 < sh -> V < 2 ^ (sh * N.of_nat n) ->
+  nz0 (strip (full sh V n)) = digits_pow2 sh V.
+Proof.
+  intros Hsh. induction n as [|n IH]; intros HV.
+  - change (N.of_nat 0) with 0 in HV. rewrite N.mul_0_r in HV. change (2 ^ 0) with 1 in HV.
+    assert (V = 0) as -> by lia. reflexivity.
+  - cbn [full strip].
+    rewrite (dig_top sh V (N.of_nat n)) by (replace (N.of_nat n + 1) with (N.of_nat (S n)) by lia; assumption).
+    destruct (N.eqb_spec (V / 2 ^ (sh * N.of_nat n)) 0) as [E|E].
+    + apply IH. apply N.div_small_iff in E; [assumption|apply pow2_ne0].
+    + assert (2 ^ (sh * N.of_nat n) <= V) as Hlo.
+      { destruct (N.le_gt_cases (2 ^ (sh * N.of_nat n)) V) as [|Hlt]; [assumption|].
+        apply N.div_small in Hlt. contradiction. }
+      unfold digits_pow2. pose proof (pow2_pos (sh * N.of_nat n)).
+      destruct (N.eqb_spec V 0) as [->|HV0]; [lia|].
+      rewrite (fuel_full sh Hsh n) ; [| assumption | assumption |].
+      * rewrite app_nil_r. cbn [full nz0].
+        rewrite (dig_top sh V (N.of_nat n)) by (replace (N.of_nat n + 1) with (N.of_nat (S n)) by lia; assumption).
+        reflexivity.
+      * (* fuel *)
+        pose proof (size_lt_pow2 V) as Hs.
+        assert (sh * N.of_nat n < N.size V) as Hlt.
+        { destruct (N.lt_ge_cases (sh * N.of_nat n) (N.size V)) as [|Hge]; [assumption|].
+          apply pow2_le in Hge. lia. }
+        assert (N.of_nat n <= sh * N.of_nat n) by nia. lia.
+Qed.
+
+Lemma digits_pow2_strip sh x : 0 < sh ->
+  digits_pow2 sh x = nz0 (strip (full sh x (N.to_nat (N.size x)))).
+Proof.
+  intros Hsh. symmetry. apply strip_full_digits; [assumption|].
+  eapply N.lt_le_trans; [apply size_lt_pow2|]. apply pow2_le. nia.
+Qed.
+
+Lemma digits_pow2_value sh x : 0 < sh -> val_of_digits (2 ^ sh) (digits_pow2 sh x) = x.
+Proof.
+  intros Hsh. rewrite digits_pow2_strip by assumption.
+  set (n := N.to_nat (N.size x)).
+  assert (val_of_digits (2 ^ sh) (strip (full sh x n)) = x) as E.
+  { rewrite vod_strip, vod_full. apply N.mod_small.
+    eapply N.lt_le_trans; [apply size_lt_pow2|]. apply pow2_le. subst n. nia. }
+  destruct (strip (full sh x n)); [|exact E]. rewrite vod_nil in E. subst x. reflexivity.
+Qed.
+
+Lemma digits_pow2_range sh x : 0 < sh -> Forall (fun d => d < 2 ^ sh) (digits_pow2 sh x).
+Proof.
+  intros Hsh. rewrite digits_pow2_strip by assumption.
+  pose proof (strip_range (fun d => d < 2 ^ sh) _ (full_range sh x (N.to_nat (N.size x)))) as H.
+  destruct (strip (full sh x (N.to_nat (N.size x)))); [|exact H].
+  constructor; [apply pow2_pos|constructor].
+Qed.
+
+Lemma digits_pow2_minimal sh x : 0 < sh -> x <> 0 -> hd 0 (digits_pow2 sh x) <> 0.
+Proof.
+  intros Hsh Hx. pose proof (digits_pow2_value sh x Hsh) as Hv.
+  rewrite digits_pow2_strip in * by assumption.
+  pose proof (strip_hd (full sh x (N.to_nat (N.size x)))) as H.
+  destruct (strip (full sh x (N.to_nat (N.size x)))) as [|d r].
+  - cbn [nz0] in Hv. unfold val_of_digits in Hv. cbn in Hv. lia.
+  - apply H. discriminate.
+Qed.
+
+Lemma parse_format_binary x : val_of_digits 2 (digits_pow2 1 x) = x.
+Proof. apply (digits_pow2_value 1 x). lia. Qed.
+
+Lemma parse_format_hex x : val_of_digits 16 (digits_pow2 4 x) = x.
+Proof. apply (digits_pow2_value 4 x). lia. Qed.
+
+Lemma hex_digit_digit_char upper d : d < 16 -> hex_digit (digit_char upper d) = Some d.
+Proof.
+  intros H. unfold digit_char, hex_digit.
+  destruct (N.ltb_spec d 10) as [H10|H10].
+  - assert ((48 <=? 48 + d) && (48 + d <=? 57) = true) as -> by lia. f_equal. lia.
+  - destruct upper.
+    + assert ((48 <=? 55 + d) && (55 + d <=? 57) = false) as -> by lia.
+      assert ((97 <=? 55 + d) && (55 + d <=? 102) = false) as -> by lia.
+      assert ((65 <=? 55 + d) && (55 + d <=? 70) = true) as -> by lia. f_equal. lia.
+    + assert ((48 <=? 87 + d) && (87 + d <=? 57) = false) as -> by lia.
+      assert ((97 <=? 87 + d) && (87 + d <=? 102) = true) as -> by lia. f_equal. lia.
+Qed.
+
+Lemma bin_digit_char d : d < 2 -> bin_digit (48 + d) = Some d.
+Proof.
+  intros H. unfold bin_digit. assert (d = 0 \/ d = 1) as [-> | ->] by lia; reflexivity.
+Qed.
+
+(* ------------------------------------------------------------------ formatting loops *)
+
+Lemma nz0_lenw (f : N -> N) z l : f 0 = z ->
+  (if lenw (map f l) =? 0 then [z] else map f l) = map f (nz0 l).
+Proof.
+  intros <-. destruct l as [|x r]; [reflexivity|].
+  cbn [map nz0]. rewrite lenw_cons. destruct (N.eqb_spec (lenw (map f r) + 1) 0); [lia|reflexivity].
+Qed.
+
+Lemma bin_loop_spec getb V : forall n started acc,
+  (forall k, (k < n)%nat -> getb (N.of_nat k) = Ok (dig 1 V (N.of_nat k))) ->
+  bin_digits_loop getb n started acc =
+  Ok (rev acc ++ map (fun d => 48 + d) (if started then full 1 V n else strip (full 1 V n))).
+Proof.
+  induction n as [|n IH]; intros started acc H.
+  - cbn [bin_digits_loop full strip map]. destruct started; rewrite app_nil_r; reflexivity.
+  - cbn [bin_digits_loop]. rewrite H by lia. cbn [bind].
+    assert (forall k, (k < n)%nat -> getb (N.of_nat k) = Ok (dig 1 V (N.of_nat k))) as H' by (intros; apply H; lia).
+    destruct started; cbn [negb andb].
+    + rewrite IH by assumption. cbn [rev full map]. rewrite <- app_assoc. reflexivity.
+    + cbn [full strip]. destruct (dig 1 V (N.of_nat n) =? 0).
+      * apply IH; assumption.
+      * rewrite IH by assumption. cbn [rev map]. rewrite <- app_assoc. reflexivity.
+Qed.
+
+Lemma hex_loop_spec w d upper V : forall n started acc,
+  (forall k, (k < n)%nat ->
+     geto d (N.of_nat k / (w / 4)) = Ok (getw d (N.of_nat k / (w / 4))) /\
+     N.land (wrap 8 (shrw (getw d (N.of_nat k / (w / 4))) ((N.of_nat k mod (w / 4)) * 4))) 15 = dig 4 V (N.of_nat k)) ->
+  hex_digits_loop w d upper n started acc =
+  Ok (rev acc ++ map (digit_char upper) (if started then full 4 V n else strip (full 4 V n))).
+Proof.
+  induction n as [|n IH]; intros started acc H.
+  - cbn [hex_digits_loop full strip map]. destruct started; rewrite app_nil_r; reflexivity.
+  - cbn [hex_digits_loop]. destruct (H n) as [E1 E2]; [lia|]. rewrite E1. cbn [bind]. rewrite E2.
+    assert (forall k, (k < n)%nat ->
+     geto d (N.of_nat k / (w / 4)) = Ok (getw d (N.of_nat k / (w / 4))) /\
+     N.land (wrap 8 (shrw (getw d (N.of_nat k / (w / 4))) ((N.of_nat k mod (w / 4)) * 4))) 15 = dig 4 V (N.of_nat k))
+      as H' by (intros; apply H; lia).
+    destruct started; cbn [negb andb].
+    + rewrite IH by assumption. cbn [rev full map]. rewrite <- app_assoc. reflexivity.
+    + cbn [full strip]. destruct (dig 4 V (N.of_nat n) =? 0).
+      * apply IH; assumption.
+      * rewrite IH by assumption. cbn [rev map]. rewrite <- app_assoc. reflexivity.
+Qed.
+
+Lemma bit_dig V i : N.b2n (N.testbit V i) = dig 1 V i.
+Proof. unfold dig. rewrite N.mul_1_l. apply N.testbit_spec'. Qed.
+
+(* a nibble read from the storage words *)
+Lemma nibble_of_raw w nu d i :
+  0 < nu -> w = 4 * nu -> words_ok w d ->
+  N.land (wrap 8 (shrw (getw d (i / nu)) ((i mod nu) * 4))) 15 = dig 4 (raw w d) i.
+Proof.
+  intros Hnu Hw Hd. assert (0 < w) as Hw0 by lia.
+  apply N.bits_inj. intro b.
+  rewrite N.land_spec, wrap_testbit, shrw_testbit, dig_testbit.
+  change 15 with (N.ones 4). rewrite ones_testbit.
+  destruct (N.ltb_spec b 4) as [Hb|Hb]; [|apply andb_false_r].
+  rewrite andb_true_r. cbn [andb].
+  assert (b <? 8 = true) as -> by (apply N.ltb_lt; lia). cbn [andb].
+  rewrite raw_testbit by assumption.
+  pose proof (div_mod_eq i nu) as Ei. pose proof (mod_lt' i nu Hnu) as Hm.
+  destruct (divmod_unique (b + 4 * i) w (i / nu) (b + i mod nu * 4) Hw0) as [-> ->]; [nia|lia|reflexivity].
+Qed.
+
+Lemma omap_list_ok' {A B} (f : A -> outcome B) (g : A -> B) l :
+  (forall a, In a l -> f a = Ok (g a)) -> omap_list f l = Ok (map g l).
+Proof.
+  induction l as [|a r IH]; intros H.
+  - reflexivity.
+  - cbn [omap_list map]. rewrite (H a) by (left; reflexivity). cbn [bind].
+    rewrite IH by (intros; apply H; right; assumption). reflexivity.
+Qed.
+
+(* --- octal *)
+
+Fixpoint bitsval (l : list N) : N := match l with [] => 0 | b :: r => b + 2 * bitsval r end.
+Fixpoint glen (l : list N) : nat :=
+  match l with
+  | [] => O
+  | _ :: [] => 1%nat
+  | _ :: _ :: [] => 1%nat
+  | _ :: _ :: _ :: r => S (glen r)
+  end.
+(* k digits, least significant first *)
+Fixpoint ledigs (sh X : N) (k : nat) : list N :=
+  match k with O => [] | S k' => X mod 2 ^ sh :: ledigs sh (X / 2 ^ sh) k' end.
+
+Lemma list_ind3 (P : list N -> Prop) :
+  P [] -> (forall a, P [a]) -> (forall a b, P [a; b]) ->
+  (forall a b c r, P r -> P (a :: b :: c :: r)) -> forall l, P l.
+Proof.
+  intros H0 H1 H2 H3. fix IH 1. intros [|a [|b [|c r]]]; [exact H0|apply H1|apply H2|apply H3, IH].
+Qed.
+
+Lemma ledigs_full sh X k : ledigs sh X k = rev (full sh X k).
+Proof.
+  revert X. induction k as [|k IH]; intros X; [reflexivity|].
+  rewrite full_snoc, rev_app_distr. cbn [ledigs rev app]. rewrite IH. reflexivity.
+Qed.
+
+Lemma oct_groups_spec l : Forall (fun b => b <= 1) l -> oct_groups l = ledigs 3 (bitsval l) (glen l).
+Proof.
+  induction l as [|a|a b|a b c r IH] using list_ind3; intros H.
+  - reflexivity.
+  - inversion H as [|? ? Ha _]; subst. cbn [oct_groups glen ledigs bitsval]. change (2 ^ 3) with 8.
+    f_equal. rewrite N.mod_small; lia.
+  - inversion H as [|? ? Ha H']; subst. inversion H' as [|? ? Hb _]; subst.
+    cbn [oct_groups glen ledigs bitsval]. change (2 ^ 3) with 8. f_equal. rewrite N.mod_small; lia.
+  - inversion H as [|? ? Ha H']; subst. inversion H' as [|? ? Hb H'']; subst.
+    inversion H'' as [|? ? Hc Hr]; subst.
+    cbn [oct_groups glen ledigs bitsval]. change (2 ^ 3) with 8.
+    assert (a + 2 * (b + 2 * (c + 2 * bitsval r)) = 8 * bitsval r + (4 * c + 2 * b + a)) as E by lia.
+    destruct (divmod_unique _ 8 (bitsval r) (4 * c + 2 * b + a) ltac:(lia) E ltac:(lia)) as [-> ->].
+    rewrite IH by assumption. reflexivity.
+Qed.
+
+Lemma glen_ge l : (length l <= 3 * glen l)%nat.
+Proof.
+  induction l as [|a|a b|a b c r IH] using list_ind3; cbn [length glen]; lia.
+Qed.
+
+Lemma bitsval_seq V n : forall a,
+  bitsval (map (fun i => N.b2n (N.testbit V i)) (map N.of_nat (seq a n))) = (V / 2 ^ N.of_nat a) mod 2 ^ N.of_nat n.
+Proof.
+  induction n as [|n IH]; intros a.
+  - cbn [seq map bitsval]. change (N.of_nat 0) with 0. change (2 ^ 0) with 1. rewrite N.mod_1_r. reflexivity.
+  - cbn [seq map bitsval]. rewrite IH.
+    replace (N.of_nat (S n)) with (1 + N.of_nat n) by lia.
+    rewrite mod_pow2_succ. rewrite N.div_div by apply pow2_ne0. rewrite <- pow2_add.
+    replace (N.of_nat (S a)) with (N.of_nat a + 1) by lia.
+    rewrite N.testbit_spec'. change (2 ^ 1) with 2. reflexivity.
+Qed.
+
+Lemma bitsval_bits V len : V < 2 ^ len ->
+  bitsval (map (fun i => N.b2n (N.testbit V i)) (nrange len)) = V.
+Proof.
+  intros H. unfold nrange. rewrite bitsval_seq. change (N.of_nat 0) with 0. change (2 ^ 0) with 1.
+  rewrite N.div_1_r, N2Nat.id. apply N.mod_small. assumption.
+Qed.
+
+Definition lnz_step (st : N * N) (x : N) : N * N :=
+  let '(nz, i) := st in ((if x =? 0 then nz else i), i + 1).
+
+Lemma lnz_snd l : forall st, snd (fold_left lnz_step l st) = snd st + lenw l.
+Proof.
+  induction l as [|x r IH]; intros [nz i].
+  - cbn [fold_left snd]. rewrite lenw_nil. lia.
+  - cbn [fold_left]. rewrite IH. cbn [lnz_step snd]. rewrite lenw_cons. lia.
+Qed.
+
+Lemma last_nz_snoc l x : last_nz (l ++ [x]) = if x =? 0 then last_nz l else lenw l.
+Proof.
+  unfold last_nz. change (fun (st : N * N) x => let '(nz, i) := st in ((if x =? 0 then nz else i), i + 1)) with lnz_step.
+  rewrite fold_left_app. cbn [fold_left].
+  pose proof (lnz_snd l (0, 0)) as Hs. destruct (fold_left lnz_step l (0, 0)) as [nz i].
+  cbn [snd fst lnz_step] in *. destruct (x =? 0); [reflexivity|lia].
+Qed.
+
+Lemma last_nz_nil : last_nz [] = 0.
+Proof. reflexivity. Qed.
+
+Lemma last_nz_lt l : l <> [] -> last_nz l + 1 <= lenw l.
+Proof.
+  induction l as [|x l IH] using rev_ind; [congruence|]. intros _.
+  rewrite last_nz_snoc, lenw_app', lenw_cons, lenw_nil.
+  destruct (x =? 0); [|lia].
+  destruct l as [|y l']; [rewrite last_nz_nil; lia|].
+  assert (y :: l' <> []) as Hn by discriminate. specialize (IH Hn). lia.
+Qed.
+
+Lemma oct_trunc_spec t : t <> [] ->
+  rev (firstn (N.to_nat (last_nz (rev t) + 1)) (rev t)) = nz0 (strip t).
+Proof.
+  induction t as [|d t IH]; [congruence|]. intros _.
+  cbn [rev strip]. rewrite last_nz_snoc.
+  destruct (N.eqb_spec d 0) as [->|Hd].
+  - destruct t as [|e t'].
+    + reflexivity.
+    + assert (e :: t' <> []) as Hn by discriminate.
+      assert (rev (e :: t') <> []) as Hn'.
+      { intros E. apply (f_equal (@length N)) in E. rewrite rev_length in E. cbn in E. lia. }
+      pose proof (last_nz_lt _ Hn') as Hlt.
+      rewrite firstn_app.
+      replace (N.to_nat (last_nz (rev (e :: t')) + 1) - length (rev (e :: t')))%nat with O
+        by (unfold lenw in Hlt; lia).
+      cbn [firstn]. rewrite app_nil_r. apply IH. assumption.
+  - rewrite firstn_all2.
+    + rewrite rev_app_distr, rev_involutive. reflexivity.
+    + rewrite app_length. unfold lenw. cbn [length]. lia.
+Qed.
+
+(* ------------------------------------------------------------------ the formatting theorems *)
+
+Theorem fmt_binary_spec P a : Good a ->
+  fmt_binary P (xw a) (xv a) = Ok (map (fun d => 48 + d) (digits_pow2 1 (val a))).
+Proof.
+  intros [Hc Hw]. pose proof (Canon_wv a Hc) as Hcw. pose proof (std_width_pos _ Hw) as Hw0.
+  unfold fmt_binary, val, xdata. set (V := raw (xw a) (wd (xv a))).
+  rewrite (bin_loop_spec _ V).
+  - cbn [bind rev app]. rewrite nz0_lenw by reflexivity.
+    rewrite (strip_full_digits 1 V); [reflexivity|lia|].
+    rewrite N2Nat.id, N.mul_1_l. destruct Hcw as (_ & _ & H). exact H.
+  - intros k Hk. rewrite v_get_spec by (assumption || lia). rewrite bit_dig. reflexivity.
+Qed.
+
+Theorem fmt_hex_spec a upper : Good a ->
+  fmt_hex (xw a) (xv a) upper = Ok (map (digit_char upper) (digits_pow2 4 (val a))).
+Proof.
+  intros [Hc Hw]. pose proof (Canon_wv a Hc) as Hcw. pose proof (std_width_pos _ Hw) as Hw0.
+  pose proof (std_width_mod8 _ Hw) as H8.
+  unfold fmt_hex, val, xdata. set (V := raw (xw a) (wd (xv a))).
+  destruct Hcw as (Hd & Hl & HV). fold V in HV.
+  set (w := xw a) in *. set (nu := w / 4).
+  assert (w = 4 * nu) as Ew by (unfold nu; lia). assert (0 < nu) as Hnu by lia.
+  rewrite (hex_loop_spec _ _ _ V).
+  - cbn [bind rev app]. rewrite nz0_lenw by reflexivity.
+    rewrite (strip_full_digits 4 V); [reflexivity|lia|].
+    rewrite N2Nat.id. eapply N.lt_le_trans; [exact HV|]. apply pow2_le. lia.
+  - intros k Hk. fold nu. split.
+    + apply geto_ok. apply N.div_lt_upper_bound; [lia|].
+      assert (N.of_nat k < (wl (xv a) + 3) / 4) as Hk' by lia.
+      assert (4 * N.of_nat k < 4 * (nu * lenw (wd (xv a)))); [|lia].
+      replace (4 * (nu * lenw (wd (xv a)))) with (w * lenw (wd (xv a))) by (rewrite Ew; lia). lia.
+    + unfold V. apply nibble_of_raw; assumption.
+Qed.
+
+Theorem fmt_octal_spec P a : Good a ->
+  fmt_octal P (xw a) (xv a) = Ok (map (fun d => 48 + d) (digits_pow2 3 (val a))).
+Proof.
+  intros [Hc Hw]. pose proof (Canon_wv a Hc) as Hcw. pose proof (std_width_pos _ Hw) as Hw0.
+  unfold fmt_octal, val, xdata. set (V := raw (xw a) (wd (xv a))).
+  assert (V < 2 ^ wl (xv a)) as HV by (destruct Hcw as (_ & _ & H); exact H).
+  rewrite (omap_list_ok' _ (fun i => N.b2n (N.testbit V i))).
+  2:{ intros i Hi. apply In_nrange in Hi. apply v_get_spec; assumption. }
+  cbn [bind]. cbv zeta. set (bits := map (fun i => N.b2n (N.testbit V i)) (nrange (wl (xv a)))).
+  rewrite oct_groups_spec.
+  2:{ apply Forall_forall. intros b Hb. apply in_map_iff in Hb. destruct Hb as [i [<- _]].
+      destruct (N.testbit V i); cbn; lia. }
+  assert (bitsval bits = V) as -> by (apply bitsval_bits; assumption). rewrite ledigs_full.
+  assert (V < 2 ^ (3 * N.of_nat (glen bits))) as HV3.
+  { eapply N.lt_le_trans; [exact HV|]. apply pow2_le. pose proof (glen_ge bits) as Hg.
+    unfold bits in Hg at 1. rewrite map_length, nrange_length in Hg. lia. }
+  rewrite <- (strip_full_digits 3 V (glen bits)) by (lia || assumption).
+  destruct (glen bits) as [|g] eqn:Eg.
+  - reflexivity.
+  - assert (full 3 V (S g) <> []) as Hn by (cbn [full]; discriminate).
+    assert (lenw (rev (full 3 V (S g))) =? 0 = false) as ->.
+    { unfold lenw. rewrite rev_length, full_length. lia. }
+    rewrite oct_trunc_spec by assumption. reflexivity.
+Qed.
+
+Theorem x_fmt_digits_spec P which a : Good a -> 1 <= which ->
+  x_fmt_digits P which a = Ok (s_fmt which (abs a)).
+Proof.
+  intros Hg Hwh. rewrite (abs_Canon a) by (destruct Hg; assumption).
+  unfold x_fmt_digits, s_fmt. cbn [bval].
+  destruct which as [|[[[|[]|]|[[]|[]|]|]|[[|[]|]|[|[]|]|]|]];
+    try lia; rewrite ?fmt_binary_spec, ?fmt_octal_spec, ?fmt_hex_spec by assumption; reflexivity.
+Qed.
+
+(* ------------------------------------------------------------------ the parsing loop *)
+
+Lemma parse_loop_ext w sh digit idx idx' s : forall i d,
+  (forall k, i <= k -> k < i + lenw s -> idx k = idx' k) ->
+  parse_loop w sh digit idx s i d = parse_loop w sh digit idx' s i d.
+Proof.
+  induction s as [|c r IH]; intros i d H; [reflexivity|].
+  rewrite lenw_cons in H. cbn [parse_loop]. destruct (digit c) as [x|]; [|reflexivity].
+  rewrite (H i) by lia. destruct (geto d (idx' i)) as [y| | |]; cbn [bind]; try reflexivity.
+  destruct (seto d (idx' i) (N.lor (shlw w y sh) x)) as [d'| | |]; cbn [bind]; try reflexivity.
+  apply IH. intros k Hk1 Hk2. apply H; lia.
+Qed.
+
+Lemma all_valid_cons digit c r :
+  all_valid digit (c :: r) = match digit c with Some _ => all_valid digit r | None => false end.
+Proof. unfold all_valid. cbn [forallb]. destruct (digit c); reflexivity. Qed.
+
+Lemma parse_loop_err w sh digit idx n s : forall i d,
+  lenw d = n -> (forall k, i <= k -> k < i + lenw s -> idx k < n) ->
+  all_valid digit s = false ->
+  parse_loop w sh digit idx s i d = Err (EFmt (first_invalid digit s i)).
+Proof.
+  induction s as [|c r IH]; intros i d Hn H Hv; [discriminate Hv|].
+  rewrite all_valid_cons in Hv. rewrite lenw_cons in H. cbn [parse_loop first_invalid].
+  destruct (digit c) as [x|]; [|reflexivity].
+  assert (idx i < lenw d) as Hi by (rewrite Hn; apply H; lia).
+  rewrite geto_ok by assumption. cbn [bind]. rewrite seto_ok by assumption. cbn [bind].
+  apply IH; [rewrite lenw_setw; assumption| |assumption].
+  intros k Hk1 Hk2. apply H; lia.
+Qed.
+
+Lemma lenw_digit_vals digit s : lenw (digit_vals digit s) = lenw s.
+Proof. unfold digit_vals, lenw. rewrite map_length. reflexivity. Qed.
+
+Section Parse.
+Variables (w sh m n L D : N) (digit : N -> option N) (idx : N -> N).
+Hypothesis Hsh : 0 < sh.
+Hypothesis Hm : 0 < m.
+Hypothesis Hw : w = sh * m.
+Hypothesis HL : L <= m * n.
+Hypothesis Hidx : forall k, k < L -> idx k = (L - 1 - k) / m.
+Hypothesis Hdig : forall c x, digit c = Some x -> x < 2 ^ sh.
+
+(* word j after i characters: the digits at positions max(j*m, L-i) .. (j+1)*m - 1 *)
+Definition winv (i j : N) : N :=
+  (D / 2 ^ (sh * N.max (j * m) (L - i))) mod 2 ^ (sh * ((j + 1) * m - N.max (j * m) (L - i))).
+
+Lemma pos_word i : i < L ->
+  m * ((L - 1 - i) / m) <= L - 1 - i /\ L - 1 - i < m * ((L - 1 - i) / m) + m /\ (L - 1 - i) / m < n.
+Proof.
+  intros Hi. pose proof (div_mod_eq (L - 1 - i) m) as E. pose proof (mod_lt' (L - 1 - i) m Hm) as Hlt.
+  split; [lia|]. split; [lia|]. apply div_lt_of_lt_mul; [assumption|lia].
+Qed.
+
+Lemma winv_other i j : i < L -> j <> (L - 1 - i) / m -> winv (i + 1) j = winv i j.
+Proof.
+  intros Hi Hj. destruct (pos_word i Hi) as (H1 & H2 & _).
+  set (j0 := (L - 1 - i) / m) in *. unfold winv.
+  destruct (N.lt_ge_cases j j0) as [Hlt|Hge].
+  - assert ((j + 1) * m <= j0 * m) as Hle by (apply N.mul_le_mono_r; lia).
+    replace ((j + 1) * m - N.max (j * m) (L - (i + 1))) with 0 by lia.
+    replace ((j + 1) * m - N.max (j * m) (L - i)) with 0 by lia.
+    rewrite N.mul_0_r. change (2 ^ 0) with 1. rewrite !N.mod_1_r. reflexivity.
+  - assert ((j0 + 1) * m <= j * m) as Hle by (apply N.mul_le_mono_r; lia).
+    replace (N.max (j * m) (L - (i + 1))) with (j * m) by lia.
+    replace (N.max (j * m) (L - i)) with (j * m) by lia. reflexivity.
+Qed.
+
+Lemma winv_step i : i < L ->
+  N.lor (shlw w (winv i ((L - 1 - i) / m)) sh) (dig sh D (L - 1 - i)) = winv (i + 1) ((L - 1 - i) / m).
+Proof.
+  intros Hi. destruct (pos_word i Hi) as (H1 & H2 & _).
+  set (p := L - 1 - i) in *. set (j0 := p / m) in *. unfold winv.
+  replace (N.max (j0 * m) (L - i)) with (p + 1) by lia.
+  replace (N.max (j0 * m) (L - (i + 1))) with p by lia.
+  set (k := (j0 + 1) * m - (p + 1)).
+  replace ((j0 + 1) * m - p) with (k + 1) by lia.
+  set (y := (D / 2 ^ (sh * (p + 1))) mod 2 ^ (sh * k)).
+  assert (y < 2 ^ (sh * k)) as Hy by (apply N.mod_lt, pow2_ne0).
+  assert (y * 2 ^ sh < 2 ^ w) as Hyw.
+  { eapply N.lt_le_trans; [apply N.mul_lt_mono_pos_r; [apply pow2_pos|exact Hy]|].
+    rewrite <- pow2_add. apply pow2_le. rewrite Hw.
+    replace (sh * k + sh) with (sh * (k + 1)) by lia. apply N.mul_le_mono_l. lia. }
+  unfold shlw. rewrite N.shiftl_mul_pow2, wrap_small by assumption.
+  rewrite N.lor_comm, (N.mul_comm y), lor_disjoint_add by apply dig_lt.
+  replace (sh * (k + 1)) with (sh + sh * k) by lia.
+  rewrite mod_pow2_succ. rewrite N.div_div by apply pow2_ne0. rewrite <- pow2_add.
+  replace (sh * p + sh) with (sh * (p + 1)) by lia. reflexivity.
+Qed.
+
+(* the head digit and the rest of the value *)
+Lemma head_digit p x v :
+  D mod 2 ^ (sh * (p + 1)) = x * 2 ^ (sh * p) + v -> v < 2 ^ (sh * p) ->
+  dig sh D p = x /\ D mod 2 ^ (sh * p) = v.
+Proof.
+  intros E Hv.
+  replace (sh * (p + 1)) with (sh * p + sh) in E by lia. rewrite mod_pow2_succ in E.
+  pose proof (pow2_pos (sh * p)) as Hp.
+  assert (D mod 2 ^ (sh * p) < 2 ^ (sh * p)) as Hlo by (apply N.mod_lt; lia).
+  fold (dig sh D p) in E.
+  set (N0 := x * 2 ^ (sh * p) + v) in *.
+  destruct (divmod_unique N0 (2 ^ (sh * p)) x v Hp) as [Q1 R1]; [unfold N0; lia|assumption|].
+  destruct (divmod_unique N0 (2 ^ (sh * p)) (dig sh D p) (D mod 2 ^ (sh * p)) Hp) as [Q2 R2]; [lia|assumption|].
+  split; congruence.
+Qed.
+
+Lemma parse_loop_ok s : forall i d,
+  lenw d = n -> i + lenw s = L ->
+  all_valid digit s = true ->
+  D mod 2 ^ (sh * (L - i)) = val_of_digits (2 ^ sh) (digit_vals digit s) ->
+  (forall j, j < n -> getw d j = winv i j) ->
+  exists d', parse_loop w sh digit idx s i d = Ok d' /\ lenw d' = n /\
+             forall j, j < n -> getw d' j = winv L j.
+Proof.
+  induction s as [|c r IH]; intros i d Hn Hi Hv HD Hinv.
+  - rewrite lenw_nil in Hi. assert (i = L) as -> by lia. exists d. cbn [parse_loop]. auto.
+  - rewrite lenw_cons in Hi. rewrite all_valid_cons in Hv. cbn [parse_loop].
+    unfold digit_vals in HD. cbn [map] in HD. fold (digit_vals digit r) in HD.
+    destruct (digit c) as [x|] eqn:Ec; [|discriminate Hv].
+    assert (i < L) as HiL by lia.
+    destruct (pos_word i HiL) as (H1 & H2 & H3).
+    rewrite Hidx by assumption. set (j0 := (L - 1 - i) / m) in *.
+    rewrite geto_ok by (rewrite Hn; assumption). cbn [bind].
+    rewrite seto_ok by (rewrite Hn; assumption). cbn [bind].
+    (* the head digit *)
+    rewrite vod_cons, lenw_digit_vals, pow_pow2 in HD.
+    assert (lenw r = L - 1 - i) as Er by lia. rewrite Er in HD.
+    replace (L - i) with (L - 1 - i + 1) in HD by lia.
+    apply head_digit in HD.
+    2:{ rewrite <- Er, <- pow_pow2, <- (lenw_digit_vals digit r). apply vod_lt.
+        unfold digit_vals. apply Forall_forall. intros y Hy. apply in_map_iff in Hy.
+        destruct Hy as [c' [<- _]]. destruct (digit c') eqn:E'; [eapply Hdig; eassumption|apply pow2_pos]. }
+    destruct HD as [Hx HD'].
+    apply IH.
+    + rewrite lenw_setw. assumption.
+    + lia.
+    + assumption.
+    + replace (L - (i + 1)) with (L - 1 - i) by lia. assumption.
+    + intros j Hj. rewrite getw_setw.
+      destruct (N.eqb_spec j0 j) as [<-|Hne].
+      * assert (j0 <? lenw d = true) as -> by (apply N.ltb_lt; rewrite Hn; assumption). cbn [andb].
+        rewrite Hinv by assumption. rewrite <- Hx. apply winv_step. assumption.
+      * cbn [andb]. rewrite Hinv by assumption. symmetry. apply winv_other; [assumption|].
+        fold j0. congruence.
+Qed.
+
+End Parse.
+
+Lemma digit_vals_range digit sh s : (forall c x, digit c = Some x -> x < 2 ^ sh) ->
+  val_of_digits (2 ^ sh) (digit_vals digit s) < 2 ^ (sh * lenw s).
+Proof.
+  intros Hdig. rewrite <- pow_pow2, <- (lenw_digit_vals digit s). apply vod_lt.
+  unfold digit_vals. apply Forall_forall. intros y Hy. apply in_map_iff in Hy.
+  destruct Hy as [c' [<- _]]. destruct (digit c') eqn:E'; [eapply Hdig; eassumption|apply pow2_pos].
+Qed.
+
+Lemma parse_core w sh m n digit idx s :
+  0 < sh -> 0 < m -> w = sh * m -> lenw s <= m * n ->
+  (forall k, k < lenw s -> idx k = (lenw s - 1 - k) / m) ->
+  (forall c x, digit c = Some x -> x < 2 ^ sh) ->
+  all_valid digit s = true ->
+  exists d', parse_loop w sh digit idx s 0 (zerosw n) = Ok d' /\ lenw d' = n /\ words_ok w d' /\
+             raw w d' = val_of_digits (2 ^ sh) (digit_vals digit s).
+Proof.
+  intros Hsh Hm Hw HL Hidx Hdig Hv.
+  set (L := lenw s) in *. set (D := val_of_digits (2 ^ sh) (digit_vals digit s)).
+  assert (D < 2 ^ (sh * L)) as HD by (apply digit_vals_range; assumption).
+  assert (0 < w) as Hw0 by nia.
+  destruct (parse_loop_ok w sh m n L D digit idx Hsh Hm Hw HL Hidx Hdig s 0 (zerosw n))
+    as (d' & E & Hl & Hg).
+  - apply lenw_zerosw.
+  - reflexivity.
+  - assumption.
+  - rewrite N.sub_0_r. apply N.mod_small. assumption.
+  - intros j Hj. rewrite getw_zerosw. unfold winv. rewrite N.sub_0_r.
+    rewrite N.div_small; [rewrite N.mod_0_l by apply pow2_ne0; reflexivity|].
+    eapply N.lt_le_trans; [exact HD|]. apply pow2_le. apply N.mul_le_mono_l. lia.
+  - exists d'. split; [exact E|]. split; [exact Hl|].
+    assert (forall j, j < n -> getw d' j = (D / 2 ^ (w * j)) mod 2 ^ w) as Hg'.
+    { intros j Hj. rewrite Hg by assumption. unfold winv.
+      replace (N.max (j * m) (L - L)) with (j * m) by lia.
+      replace ((j + 1) * m - j * m) with m by lia.
+      rewrite <- Hw. replace (sh * (j * m)) with (w * j) by (rewrite Hw; lia). reflexivity. }
+    assert (words_ok w d') as Hok.
+    { apply words_ok_getw. intros j Hj. rewrite Hg' by lia. apply N.mod_lt, pow2_ne0. }
+    split; [exact Hok|].
+    apply N.bits_inj. intro b. rewrite raw_testbit by assumption.
+    destruct (N.lt_ge_cases (b / w) n) as [Hlt|Hge].
+    + rewrite Hg' by assumption. rewrite mod_pow2_testbit, div_pow2_testbit.
+      assert (b mod w <? w = true) as -> by (apply N.ltb_lt, mod_lt'; assumption). cbn [andb].
+      f_equal. pose proof (div_mod_eq b w). lia.
+    + rewrite getw_high by lia. rewrite N.bits_0. symmetry.
+      apply (testbit_high D (sh * L)); [assumption|].
+      assert (w * n <= b).
+      { pose proof (div_mod_eq b w). assert (w * n <= w * (b / w)) by (apply N.mul_le_mono_l; assumption). lia. }
+      assert (sh * L <= sh * (m * n)) by (apply N.mul_le_mono_l; assumption).
+      rewrite Hw in *. lia.
+Qed.
+
+(* range of the word index, for the error case *)
+Lemma idx_range m n L k : 0 < m -> L <= m * n -> k < L -> (L - 1 - k) / m < n.
+Proof. intros Hm HL Hk. apply div_lt_of_lt_mul; [assumption|lia]. Qed.
+
+Lemma parse_core_err w sh m n digit idx s :
+  0 < m -> lenw s <= m * n ->
+  (forall k, k < lenw s -> idx k = (lenw s - 1 - k) / m) ->
+  all_valid digit s = false ->
+  parse_loop w sh digit idx s 0 (zerosw n) = Err (EFmt (first_invalid digit s 0)).
+Proof.
+  intros Hm HL Hidx Hv. apply (parse_loop_err w sh digit idx n); [apply lenw_zerosw| |assumption].
+  intros k _ Hk. rewrite Hidx by lia. apply idx_range; [assumption|assumption|lia].
+Qed.
+
+Lemma bin_digit_lt c x : bin_digit c = Some x -> x < 2 ^ 1.
+Proof.
+  unfold bin_digit. destruct (c =? 48); [intros [= <-]; reflexivity|].
+  destruct (c =? 49); [intros [= <-]; reflexivity|discriminate].
+Qed.
+
+Lemma hex_digit_lt c x : hex_digit c = Some x -> x < 2 ^ 4.
+Proof.
+  unfold hex_digit. change (2 ^ 4) with 16.
+  destruct ((48 <=? c) && (c <=? 57)) eqn:E1; [intros [= <-]; lia|].
+  destruct ((97 <=? c) && (c <=? 102)) eqn:E2; [intros [= <-]; lia|].
+  destruct ((65 <=? c) && (c <=? 70)) eqn:E3; [intros [= <-]; lia|discriminate].
+Qed.
+
+(* --- the four parsers, storage level *)
+
+Definition parsed (w n sh : N) (digit : N -> option N) (s : list N) (v : wv) : Prop :=
+  canon_wv w v /\ lenw (wd v) = n /\ wl v = lenw s * sh /\
+  raw w (wd v) = val_of_digits (2 ^ sh) (digit_vals digit s).
+
+Lemma parsed_intro w n sh m digit s d :
+  w = sh * m -> lenw s <= m * n -> (forall c x, digit c = Some x -> x < 2 ^ sh) ->
+  lenw d = n -> words_ok w d -> raw w d = val_of_digits (2 ^ sh) (digit_vals digit s) ->
+  parsed w n sh digit s (mkwv d (lenw s * sh)).
+Proof.
+  intros Hw HL Hdig Hn Hok Hr. unfold parsed, canon_wv. cbn [wd wl]. rewrite Hr, Hn.
+  split; [|auto]. split; [assumption|]. split.
+  - rewrite Hw. assert (sh * lenw s <= sh * (m * n)) by (apply N.mul_le_mono_l; assumption). lia.
+  - rewrite (N.mul_comm (lenw s)). apply digit_vals_range. assumption.
+Qed.
+
+Lemma f_from_binary_spec w n s : 0 < w ->
+  if w * n <? lenw s then f_from_binary w n s = Err ECap
+  else if all_valid bin_digit s
+       then exists v, f_from_binary w n s = Ok v /\ parsed w n 1 bin_digit s v
+       else f_from_binary w n s = Err (EFmt (first_invalid bin_digit s 0)).
+Proof.
+  intros Hw. unfold f_from_binary. destruct (N.ltb_spec (w * n) (lenw s)) as [Hc|Hc]; [reflexivity|].
+  destruct (all_valid bin_digit s) eqn:Hv.
+  - destruct (parse_core w 1 w n bin_digit (fun i => (lenw s - 1 - i) / w) s
+                ltac:(lia) Hw ltac:(lia) Hc (fun k _ => eq_refl) bin_digit_lt Hv) as (d & E & Hl & Hok & Hr).
+    rewrite E. cbn [bind]. eexists. split; [reflexivity|].
+    replace (mkwv d (lenw s)) with (mkwv d (lenw s * 1)) by (rewrite N.mul_1_r; reflexivity).
+    apply (parsed_intro w n 1 w); try assumption; [lia|apply bin_digit_lt].
+  - rewrite (parse_core_err w 1 w n _ _ _ Hw Hc (fun k _ => eq_refl) Hv). reflexivity.
+Qed.
+
+Lemma f_from_hex_spec w n s : 0 < w -> w mod 4 = 0 ->
+  if w * n <? lenw s * 4 then f_from_hex w n s = Err ECap
+  else if all_valid hex_digit s
+       then exists v, f_from_hex w n s = Ok v /\ parsed w n 4 hex_digit s v
+       else f_from_hex w n s = Err (EFmt (first_invalid hex_digit s 0)).
+Proof.
+  intros Hw H4. unfold f_from_hex. destruct (N.ltb_spec (w * n) (lenw s * 4)) as [Hc|Hc]; [reflexivity|].
+  set (m := w / 4). assert (w = 4 * m) as Ew by (unfold m; lia). assert (0 < m) as Hm by lia.
+  assert (lenw s <= m * n) as HL by nia.
+  destruct (all_valid hex_digit s) eqn:Hv.
+  - destruct (parse_core w 4 m n hex_digit (fun i => (lenw s - 1 - i) / m) s
+                ltac:(lia) Hm Ew HL (fun k _ => eq_refl) hex_digit_lt Hv) as (d & E & Hl & Hok & Hr).
+    rewrite E. cbn [bind]. eexists. split; [reflexivity|].
+    apply (parsed_intro w n 4 m); try assumption. apply hex_digit_lt.
+  - fold m. rewrite (parse_core_err w 4 m n _ _ _ Hm HL (fun k _ => eq_refl) Hv). reflexivity.
+Qed.
+
+Lemma d_idx_binary L i : i < L ->
+  cfbl_d L - 1 - (i + (W64 - L mod W64) mod W64) / W64 = (L - 1 - i) / 64.
+Proof. intros H. unfold cfbl_d, cfbyl_d, W64. lia. Qed.
+
+Lemma d_idx_hex L i : i < L ->
+  cfbyl_d ((L + 1) / 2) - 1 - (i + (16 - L mod 16) mod 16) / 16 = (L - 1 - i) / 16.
+Proof. intros H. unfold cfbyl_d. lia. Qed.
+
+Lemma d_from_binary_spec s :
+  if all_valid bin_digit s
+  then exists v, d_from_binary s = Ok v /\ parsed 64 (cfbl_d (lenw s)) 1 bin_digit s v
+  else d_from_binary s = Err (EFmt (first_invalid bin_digit s 0)).
+Proof.
+  unfold d_from_binary.
+  assert (lenw s <= 64 * cfbl_d (lenw s)) as HL by (unfold cfbl_d, cfbyl_d; lia).
+  destruct (all_valid bin_digit s) eqn:Hv.
+  - destruct (parse_core W64 1 64 (cfbl_d (lenw s)) bin_digit
+               (fun i => cfbl_d (lenw s) - 1 - (i + (W64 - lenw s mod W64) mod W64) / W64) s
+               ltac:(lia) ltac:(lia) eq_refl HL (fun k Hk => d_idx_binary _ _ Hk) bin_digit_lt Hv)
+      as (d & E & Hl & Hok & Hr).
+    rewrite E. cbn [bind]. eexists. split; [reflexivity|].
+    replace (mkwv d (lenw s)) with (mkwv d (lenw s * 1)) by (rewrite N.mul_1_r; reflexivity).
+    apply (parsed_intro 64 _ 1 64); try assumption; [reflexivity|apply bin_digit_lt].
+  - rewrite (parse_core_err W64 1 64 (cfbl_d (lenw s)) _ _ _ ltac:(lia) HL (fun k Hk => d_idx_binary _ _ Hk) Hv).
+    reflexivity.
+Qed.
+
+Lemma d_from_hex_spec s :
+  if all_valid hex_digit s
+  then exists v, d_from_hex s = Ok v /\ parsed 64 (cfbyl_d ((lenw s + 1) / 2)) 4 hex_digit s v
+  else d_from_hex s = Err (EFmt (first_invalid hex_digit s 0)).
+Proof.
+  unfold d_from_hex.
+  assert (lenw s <= 16 * cfbyl_d ((lenw s + 1) / 2)) as HL by (unfold cfbyl_d; lia).
+  destruct (all_valid hex_digit s) eqn:Hv.
+  - destruct (parse_core W64 4 16 (cfbyl_d ((lenw s + 1) / 2)) hex_digit
+               (fun i => cfbyl_d ((lenw s + 1) / 2) - 1 - (i + (16 - lenw s mod 16) mod 16) / 16) s
+               ltac:(lia) ltac:(lia) eq_refl HL (fun k Hk => d_idx_hex _ _ Hk) hex_digit_lt Hv)
+      as (d & E & Hl & Hok & Hr).
+    rewrite E. cbn [bind]. eexists. split; [reflexivity|].
+    apply (parsed_intro 64 _ 4 16); try assumption; [reflexivity|apply hex_digit_lt].
+  - rewrite (parse_core_err W64 4 16 (cfbyl_d ((lenw s + 1) / 2)) _ _ _ ltac:(lia) HL (fun k Hk => d_idx_hex _ _ Hk) Hv).
+    reflexivity.
+Qed.
+
+(* ------------------------------------------------------------------ the constructors of the three types *)
+
+Lemma utf8_fold s : forall a, fold_left (fun a c => a + utf8_len1 c) s a = a + utf8_len s.
+Proof.
+  unfold utf8_len. induction s as [|c r IH]; intros a; cbn [fold_left]; [lia|].
+  rewrite IH, (IH (0 + utf8_len1 c)). lia.
+Qed.
+
+Lemma utf8_len_cons c r : utf8_len (c :: r) = utf8_len1 c + utf8_len r.
+Proof. unfold utf8_len at 1. cbn [fold_left]. rewrite utf8_fold. lia. Qed.
+
+Lemma utf8_len_ge s : lenw s <= utf8_len s.
+Proof.
+  induction s as [|c r IH]; [reflexivity|]. rewrite utf8_len_cons, lenw_cons.
+  assert (1 <= utf8_len1 c); [|lia]. unfold utf8_len1.
+  destruct (c <? 128); [lia|]. destruct (c <? 2048); [lia|]. destruct (c <? 65536); lia.
+Qed.
+
+Lemma utf8_len_ascii digit s : (forall c x, digit c = Some x -> c < 128) ->
+  all_valid digit s = true -> utf8_len s = lenw s.
+Proof.
+  intros Hd. induction s as [|c r IH]; intros Hv; [reflexivity|].
+  rewrite all_valid_cons in Hv. rewrite utf8_len_cons, lenw_cons.
+  destruct (digit c) as [x|] eqn:E; [|discriminate].
+  rewrite IH by assumption. unfold utf8_len1.
+  assert (c <? 128 = true) as -> by (apply N.ltb_lt; eapply Hd; eassumption). lia.
+Qed.
+
+Lemma bin_digit_ascii c x : bin_digit c = Some x -> c < 128.
+Proof.
+  unfold bin_digit. destruct (N.eqb_spec c 48); [lia|]. destruct (N.eqb_spec c 49); [lia|discriminate].
+Qed.
+
+Lemma hex_digit_ascii c x : hex_digit c = Some x -> c < 128.
+Proof.
+  unfold hex_digit.
+  destruct ((48 <=? c) && (c <=? 57)) eqn:E1; [lia|].
+  destruct ((97 <=? c) && (c <=? 102)) eqn:E2; [lia|].
+  destruct ((65 <=? c) && (c <=? 70)) eqn:E3; [lia|discriminate].
+Qed.
+
+Definition kind_ok (k : kind) : Prop := match k with KF w n => std_width w /\ 0 < n | _ => True end.
+
+Lemma parsed_abs w n sh digit s v : parsed w n sh digit s v ->
+  abs_wv w v = mkbv (lenw s * sh) (val_of_digits (pow2 sh) (digit_vals digit s)).
+Proof.
+  intros (Hc & _ & Hl & Hr). rewrite abs_canon by assumption. rewrite Hl, Hr, pow2_eq. reflexivity.
+Qed.
+
+Section KParse.
+Variables (ff : N -> N -> list N -> outcome wv) (fd : list N -> outcome wv).
+Variables (digit : N -> option N) (sh : N) (nd : list N -> N).
+Hypothesis Hff : forall w n s, std_width w ->
+  if w * n <? lenw s * sh then ff w n s = Err ECap
+  else if all_valid digit s
+       then exists v, ff w n s = Ok v /\ parsed w n sh digit s v
+       else ff w n s = Err (EFmt (first_invalid digit s 0)).
+Hypothesis Hfd : forall s,
+  if all_valid digit s
+  then exists v, fd s = Ok v /\ parsed 64 (nd s) sh digit s v
+  else fd s = Err (EFmt (first_invalid digit s 0)).
+Hypothesis Hascii : forall c x, digit c = Some x -> c < 128.
+
+Definition kf (k : kind) (s : list N) : outcome bvx :=
+  match k with
+  | KF w n => let! v := ff w n s in Ok (XF w v)
+  | KD => let! v := fd s in Ok (XD v)
+  | KA => if utf8_len s * sh <=? 128 then let! v := ff 64 2 s in Ok (XA true v)
+          else let! v := fd s in Ok (XA false v)
+  end.
+
+Lemma kf_spec k s : kind_ok k ->
+  match s_parse k digit sh s with
+  | SOk [SV k' v _ _] => exists r, kf k s = Ok r /\ Good r /\ kind_matches k r = true /\ abs r = v
+  | SErr e => kf k s = Err e
+  | _ => True
+  end.
+Proof.
+  intros Hk. unfold s_parse, sv. destruct k as [w n| |].
+  - destruct Hk as [Hw Hn]. specialize (Hff w n s Hw).
+    cbn [fits kind_fixed kind_cap negb orb kf].
+    destruct (N.ltb_spec (w * n) (lenw s * sh)) as [Hc|Hc].
+    + assert (lenw s * sh <=? w * n = false) as -> by (apply N.leb_gt; assumption).
+      rewrite Hff. destruct (all_valid digit s); [reflexivity|exact I].
+    + assert (lenw s * sh <=? w * n = true) as -> by (apply N.leb_le; assumption).
+      destruct (all_valid digit s).
+      * destruct Hff as (v & E & Hp). exists (XF w v). rewrite E. split; [reflexivity|].
+        pose proof Hp as (Hcan & Hlen & _ & _).
+        split; [split; [apply Canon_XF; [assumption|apply std_width_pos; assumption|apply std_width_mod8; assumption]|exact Hw]|].
+        split; [cbn [kind_matches]; rewrite Hlen, !N.eqb_refl; reflexivity|].
+        apply (parsed_abs _ _ _ _ _ _ Hp).
+      * rewrite Hff. reflexivity.
+  - specialize (Hfd s). cbn [fits kind_fixed negb orb kf].
+    destruct (all_valid digit s).
+    + destruct Hfd as (v & E & Hp). exists (XD v). rewrite E. split; [reflexivity|].
+      pose proof Hp as (Hcan & _).
+      split; [apply Good_of_Canon_D, Canon_XD; assumption|].
+      split; [reflexivity|]. apply (parsed_abs _ _ _ _ _ _ Hp).
+    + rewrite Hfd. reflexivity.
+  - specialize (Hfd s). specialize (Hff 64 2 s std_width_64).
+    cbn [fits kind_fixed negb orb kf].
+    destruct (all_valid digit s) eqn:Hv.
+    + rewrite (utf8_len_ascii digit s Hascii Hv).
+      destruct (N.leb_spec (lenw s * sh) 128) as [Hc|Hc].
+      * assert (64 * 2 <? lenw s * sh = false) as Hc' by (apply N.ltb_ge; lia). rewrite Hc' in Hff.
+        destruct Hff as (v & E & Hp). exists (XA true v). rewrite E. split; [reflexivity|].
+        pose proof Hp as (Hcan & Hlen & _ & _).
+        split; [apply Good_of_Canon_A, Canon_XA_fixed; assumption|].
+        split; [reflexivity|]. apply (parsed_abs _ _ _ _ _ _ Hp).
+      * destruct Hfd as (v & E & Hp). exists (XA false v). rewrite E. split; [reflexivity|].
+        pose proof Hp as (Hcan & _).
+        split; [apply Good_of_Canon_A, Canon_XA_dyn; assumption|].
+        split; [reflexivity|]. apply (parsed_abs _ _ _ _ _ _ Hp).
+    + destruct (N.leb_spec (utf8_len s * sh) 128) as [Hc|Hc].
+      * assert (64 * 2 <? lenw s * sh = false) as Hc'.
+        { apply N.ltb_ge. pose proof (utf8_len_ge s).
+          assert (lenw s * sh <= utf8_len s * sh) by (apply N.mul_le_mono_r; assumption). lia. }
+        rewrite Hc' in Hff. rewrite Hff. reflexivity.
+      * rewrite Hfd. reflexivity.
+Qed.
+
+End KParse.
+
+Theorem k_from_binary_spec k s : kind_ok k ->
+  match s_parse k bin_digit 1 s with
+  | SOk [SV k' v _ _] => exists r, k_from_binary k s = Ok r /\ Good r /\ kind_matches k r = true /\ abs r = v
+  | SErr e => k_from_binary k s = Err e
+  | _ => True
+  end.
+Proof.
+  intros Hk.
+  assert (k_from_binary k s = kf f_from_binary d_from_binary 1 k s) as ->.
+  { destruct k; cbn [k_from_binary kf]; rewrite ?N.mul_1_r; reflexivity. }
+  apply (kf_spec f_from_binary d_from_binary bin_digit 1 (fun s => cfbl_d (lenw s))); [| |exact bin_digit_ascii|exact Hk].
+  - intros w n s' Hw. rewrite N.mul_1_r. apply f_from_binary_spec, std_width_pos, Hw.
+  - intros s'. apply d_from_binary_spec.
+Qed.
+
+Theorem k_from_hex_spec k s : kind_ok k ->
+  match s_parse k hex_digit 4 s with
+  | SOk [SV k' v _ _] => exists r, k_from_hex k s = Ok r /\ Good r /\ kind_matches k r = true /\ abs r = v
+  | SErr e => k_from_hex k s = Err e
+  | _ => True
+  end.
+Proof.
+  intros Hk.
+  assert (k_from_hex k s = kf f_from_hex d_from_hex 4 k s) as -> by (destruct k; reflexivity).
+  apply (kf_spec f_from_hex d_from_hex hex_digit 4 (fun s => cfbyl_d ((lenw s + 1) / 2))); [| |exact hex_digit_ascii|exact Hk].
+  - intros w n s' Hw. apply f_from_hex_spec; [apply std_width_pos, Hw|].
+    pose proof (std_width_mod8 _ Hw). lia.
+  - intros s'. apply d_from_hex_spec.
+Qed.
